@@ -53,11 +53,11 @@ def k0 : Sys := BertE.Drv.C01.initSys true true [d43, d51]
 /-- a first pull request (`feature/y`, behind its destination) goes through the queue and is merged: the queue
     branches q/4.3 and q/5.1 stay behind, the queue is empty -/
 def k1 : Sys := (step k0 (.extSet "feature/y" [0] false)).1
-def k2 : Sys := (step k1 (.evalPr ⟨1, "feature/y", d43⟩ .final [] [])).1
+def k2 : Sys := (step k1 (.evalPr ⟨1, "feature/y", d43, false⟩ .final [] [])).1
 def k3 : Sys := (step k2 (.evalQueues [1])).1
 /-- a second pull request, `feature/x` (commit 7), up to date with development/4.3 (commit 5) -/
 def k4 : Sys := (step k3 (.extSet "feature/x" [5] false)).1
-def prX : PrInfo := ⟨2, "feature/x", d43⟩
+def prX : PrInfo := ⟨2, "feature/x", d43, false⟩
 
 theorem k4_WF : k4.WF := rec_wf_check (by decide) (by decide) (by decide) (by decide)
 
@@ -66,10 +66,10 @@ theorem k4_WF : k4.WF := rec_wf_check (by decide) (by decide) (by decide) (by de
 def q0 : Sys := BertE.Drv.C01.initSys true false [d43, d51]
 def q1 : Sys := (step q0 (.extSet "feature/y" [0] false)).1
 def q2 : Sys := (step q1 (.extSet "feature/x" [1] false)).1
-def q3 : Sys := (step q2 (.evalPr ⟨1, "feature/y", d43⟩ .final [] [])).1
-def q4 : Sys := (step q3 (.evalPr ⟨2, "feature/x", d43⟩ .final [] [])).1
+def q3 : Sys := (step q2 (.evalPr ⟨1, "feature/y", d43, false⟩ .final [] [])).1
+def q4 : Sys := (step q3 (.evalPr ⟨2, "feature/x", d43, false⟩ .final [] [])).1
 
-def prY : PrInfo := ⟨1, "feature/y", d43⟩
+def prY : PrInfo := ⟨1, "feature/y", d43, false⟩
 
 theorem q2_QTip : rec_QTip q2.g q2.remote := rec_qtip_check (by decide)
 theorem q2_QEmpty : rec_QEmpty q2 prY := rec_qempty_check (by decide)
